@@ -479,8 +479,8 @@ member (the only one / the first one) is run again on the value itself.
 
 `visD ds exro s v = none` — rejected; `some v'` — accepted, `v'` is the value afterwards. Structural recursion
 over the schema (an injected default comes out of the schema, not out of the value). The partial mutations of a
-*failing* visit are never seen — except below `not` (where the failing visit is the good case): defaults below
-`not` are outside this model (`dfltUnderNot`, `unmodelled`). -/
+*failing* visit are never seen: oneOf/anyOf candidates and — since repair 197d46a — the schema below `not` are
+tried on a private deep copy. -/
 
 def guardV (b : Bool) (v : V) : Option V := if b then some v else none
 
@@ -707,24 +707,6 @@ def hasDfltL : List RS → Bool
 end
 
 mutual
-/-- a `default` occurs below a `not` (outside the model of `visD`: the partial mutations of the failing visit
-below `not` stay in the value) -/
-def dfltUnderNot : RS → Bool
-  | .mk _ _ _ _ _ _ props _ _ items nt oneOf anyOf allOf _ =>
-    hasDfltO nt || dfltUnderNotP props || dfltUnderNotO items || dfltUnderNotO nt || dfltUnderNotL oneOf ||
-    dfltUnderNotL anyOf || dfltUnderNotL allOf
-def dfltUnderNotP : List (Str × RS) → Bool
-  | [] => false
-  | (_, p) :: r => dfltUnderNot p || dfltUnderNotP r
-def dfltUnderNotO : Option RS → Bool
-  | none => false
-  | some s => dfltUnderNot s
-def dfltUnderNotL : List RS → Bool
-  | [] => false
-  | s :: r => dfltUnderNot s || dfltUnderNotL r
-end
-
-mutual
 /-- no composition keyword anywhere in the schema -/
 def compFree : RS → Bool
   | .mk _ _ _ _ _ _ props _ _ items nt oneOf anyOf allOf _ =>
@@ -790,6 +772,12 @@ def completeItems (exro : Bool) : Option RS → List V → List V
   | none => fun xs => xs
   | some it => fun xs => xs.map (complete exro it)
 end
+
+/-- `allOf` under default-setting, declaratively: every member is judged on the value completed by ITSELF and by
+all EARLIER members (never by later ones), and hands the completed value on -/
+def chainComplete (exro : Bool) : List RS → V → Option V
+  | [], v => some v
+  | m :: r, v => if satReqB exro m (complete exro m v) then chainComplete exro r (complete exro m v) else none
 
 /-- where the request-side reading of the property text decides the verdict also under default-setting: no
 default fires on this value, or the schema is composition-free with harmless defaults -/
@@ -1292,7 +1280,6 @@ set the body is re-encoded for the next handler — only if an encoder is regist
 fail): the verdict does not depend on it any more. -/
 def validateValue (exro ds : Bool) (s : RS) (v : V) : Outcome :=
   if !ds then (if visit exro s v then .ok else .schemaErr)
-  else if dfltUnderNot s then .unmodelled
   else match visD true exro s v with
     | none => .schemaErr
     | some _ => .ok
